@@ -31,4 +31,9 @@ PROPS = {
         "level_text": "Machine-checked Lean 4 theorems: the flag constants are bits 29, 30, 31; on all 52 cards x 8 mark combinations marking equals OR-ing m<<29, all field accessors (regenerated graphs) read the same, marking is idempotent, stripping returns the card (also after any further marks); the three order clauses hold for all 52x8x52x8 combinations by arithmetic from those facts; stripping and domination also proved for ANY word below 2^29.",
         "level_note": "Trusts: Lean kernel; rustc; extractor; gen_lean.py. The four one-line flag functions are hand-modelled and compared with the crate on all 416 marked cards and seeded marked words.",
     },
+    "C01": {
+        "technique": "Lean 4 proof: general bridge/permutation/order lemmas + kernel evaluation (decide +kernel) of all 7,462 hand classes against the regenerated lookup tables and the poker-rules specification",
+        "level_text": "Machine-checked Lean 4 theorems for EVERY list of five distinct real cards (hence every slot order) and all five-card entry points: no panic, value in 1..7462, all entry points agree; lower value iff the first hand beats the second and equal value iff they tie under the rules-of-poker specification Spec.strength; independent of slot order; every value 1..7462 is produced; royal flush = 1, 7-5-4-3-2 = 7462. The four lookup tables are regenerated from the compiled crate on every run and the kernel facts A, B, W are re-proved when they change; the evaluator algorithm (bit ops, binary search) is hand-modelled and compared with the crate on all 2,598,960 hands x slot orders.",
+        "level_note": "Trusts: Lean kernel; Spec/Poker.lean as the meaning of poker strength; rustc; extractor; gen_lean.py; the driver correspondence for the hand-written evaluator model (exhaustive over all five-card hands in >= 3 slot orders, all 120 in thorough, plus the binary search on every table key +-1).",
+    },
 }
